@@ -10,9 +10,11 @@ EXTENDS MLNorm
 CONSTANTS MaxN, MaxR, MaxCellsM5, MlN, MlR, MlLow, Families,
           Shrink     \* 0; 1 = negative model: fan data with a half fan size one too small (must violate M2)
 MlExp == (-MlLow)..1     \* exponents of the efficiencies in the exhaustive part
-VARIABLES mode, g, k, memo, x
+VARIABLES mode, g, k, memo, memo2, x,
+          res    \* verdict of the theorem evaluated in the step that led here (theorems are evaluated inside the
+                 \* action: TLC caches LET tables there, not in invariants)
 
-vars == << mode, g, k, memo, x >>
+vars == << mode, g, k, memo, memo2, x, res >>
 FG(c) == [FanGeomOf(c) EXCEPT !.h = @ - Shrink]
 
 Configs ==
@@ -76,19 +78,26 @@ M4(c, mm) ==
 \* M5: geometric classes (periods = physical crystals per block): every entry is represented by a
 \* slot; being in the same class is an equivalence on the entries
 GeoOf(c) == [PA |-> PhA(c), PT |-> PhT(c)]
-M5(c, mm) ==
+M5Applies(c, mm) == LegalGeo(FanGeomOf(c), GeoOf(c)) /\ Len(mm.cells) <= MaxCellsM5
+\* (tables as a state variable: computed once, one step before the theorem is checked)
+Memo2(c, mm) ==
   LET fg == FanGeomOf(c)  gp == GeoOf(c) IN
-  (LegalGeo(fg, gp) /\ Len(mm.cells) <= MaxCellsM5) =>
-     LET slotOff == SlotOff(fg, gp)  slots == SlotSeq(fg, gp) IN
-     /\ Len(slots) = NumSlots(fg, gp)
-     /\ \A n \in 1..Len(slots) : IsSlot(fg, gp, slots[n]) /\ SlotIndex(fg, gp, slotOff, slots[n]) = n
+  IF ~M5Applies(c, mm) THEN << >>
+  ELSE [slots |-> SlotSeq(fg, gp), slotOff |-> SlotOff(fg, gp),
+        \* the class of every entry as a set of entry indices; the slots of every entry
+        clsOf |-> [ i \in 1..Len(mm.cells) |-> { CellIndex(fg, mm.raOff, y) : y \in { z \in ClassOf(fg, gp, mm.cells[i]) : IsCell(fg, z) } } ],
+        slotsOf |-> [ i \in 1..Len(mm.cells) |-> SlotsOfCell(fg, gp, SlotOff(fg, gp), mm.cells[i]) ]]
+M5(c, mm, m2) ==
+  LET fg == FanGeomOf(c)  gp == GeoOf(c) IN
+  M5Applies(c, mm) =>
+     /\ Len(m2.slots) = NumSlots(fg, gp)
+     /\ \A n \in 1..Len(m2.slots) : IsSlot(fg, gp, m2.slots[n]) /\ SlotIndex(fg, gp, m2.slotOff, m2.slots[n]) = n
      /\ \A i \in 1..Len(mm.cells) :
-          LET cl == { y \in ClassOf(fg, gp, mm.cells[i]) : IsCell(fg, y) } IN
-          /\ SlotsOfCell(fg, gp, slotOff, mm.cells[i]) # {}
-          /\ mm.cells[i] \in cl
-          /\ \A y \in cl : { z \in ClassOf(fg, gp, y) : IsCell(fg, z) } = cl
-     /\ \A n \in 1..Len(slots) :
-          \A i \in CellsOfSlot(fg, gp, mm.raOff, slots[n]) : n \in SlotsOfCell(fg, gp, slotOff, mm.cells[i])
+          /\ m2.slotsOf[i] # {}
+          /\ i \in m2.clsOf[i]
+          /\ \A j \in m2.clsOf[i] : m2.clsOf[j] = m2.clsOf[i] /\ m2.slotsOf[j] = m2.slotsOf[i]
+     /\ \A n \in 1..Len(m2.slots) :
+          \A i \in CellsOfSlot(fg, gp, mm.raOff, m2.slots[n]) : n \in m2.slotsOf[i]
 
 (* ------------------------- ML theorems (tiny) -------------------------- *)
 MlConfigs == { c \in [N : {MlN}, R : 1..MlR, pbT : {2}, vT : {0}, pbA : {1}, vA : {0}, maxSeg : 0..(MlR - 1),
@@ -150,23 +159,31 @@ F4(c, mm, xx) ==
 \* exponent assignments: all of them for one ring, a family of patterns for more
 Patterns(n) == { [ i \in 1..n |-> ((i * p + (i \div 3) * q + (i \div MlN) * s) % 3) - 1 ] : p \in 0..2, q \in 0..2, s \in 0..2 }
 XSet(n) == IF n <= MlN THEN [1..n -> MlExp] ELSE Patterns(n)
-Init == \/ /\ "geo" \in Families /\ mode = "geo" /\ g \in Configs /\ k = 0 /\ memo = << >> /\ x = << >>
-        \/ /\ "ml" \in Families /\ mode = "ml" /\ g \in MlConfigs /\ k = 0 /\ memo = << >>
-           /\ x \in XSet(g.R * NPhys(g))
-LoadMemo == k = 0 /\ k' = 1 /\ memo' = Memo(g) /\ UNCHANGED << mode, g, x >>
+Init == /\ res = TRUE
+        /\ \/ /\ "geo" \in Families /\ mode = "geo" /\ g \in Configs /\ k = 0 /\ memo = << >> /\ memo2 = << >> /\ x = << >>
+           \/ /\ "ml" \in Families /\ mode = "ml" /\ g \in MlConfigs /\ k = 0 /\ memo = << >> /\ memo2 = << >>
+              /\ x \in XSet(g.R * NPhys(g))
+LoadMemo == k = 0 /\ k' = 1 /\ memo' = Memo(g) /\ UNCHANGED << mode, g, memo2, x, res >>
+\* theorem number k is evaluated on the way from k to k + 1.
 \* F1, F2 for every assignment; F3, F4 (distributivity over classes / block pairs) for the patterns
-NextTheorem == k >= 1 /\ k < (IF mode = "geo" THEN 6 ELSE IF x \in Patterns(Len(x)) THEN 4 ELSE 2) /\ k' = k + 1 /\ UNCHANGED << mode, g, memo, x >>
+LastTheorem == IF mode = "geo" THEN 6 ELSE IF x \in Patterns(Len(x)) THEN 4 ELSE 2
+Theorem == IF mode = "geo"
+           THEN CASE k = 1 -> M0(g) [] k = 2 -> M1(g) [] k = 3 -> M2(g, memo) [] k = 4 -> M3(g, memo) [] k = 5 -> M4(g, memo) [] OTHER -> M5(g, memo, memo2)
+           ELSE CASE k = 1 -> F1(g, memo, x) [] k = 2 -> F2(g, memo, x) [] k = 3 -> F3(g, memo, x) [] OTHER -> F4(g, memo, x)
+NextTheorem == /\ k >= 1 /\ k <= LastTheorem /\ k' = k + 1 /\ UNCHANGED << mode, g, memo, x >>
+               /\ memo2' = IF mode = "geo" /\ k = 5 THEN Memo2(g, memo) ELSE memo2
+               /\ res' = Theorem
 Next == LoadMemo \/ NextTheorem
 Spec == Init /\ [][Next]_vars
 
-InvM0 == (mode = "geo" /\ k = 1) => M0(g)
-InvM1 == (mode = "geo" /\ k = 2) => M1(g)
-InvM2 == (mode = "geo" /\ k = 3) => M2(g, memo)
-InvM3 == (mode = "geo" /\ k = 4) => M3(g, memo)
-InvM4 == (mode = "geo" /\ k = 5) => M4(g, memo)
-InvM5 == (mode = "geo" /\ k = 6) => M5(g, memo)
-InvF1 == (mode = "ml" /\ k = 1) => F1(g, memo, x)
-InvF2 == (mode = "ml" /\ k = 2) => F2(g, memo, x)
-InvF3 == (mode = "ml" /\ k = 3) => F3(g, memo, x)
-InvF4 == (mode = "ml" /\ k = 4) => F4(g, memo, x)
+InvM0 == (mode = "geo" /\ k = 2) => res
+InvM1 == (mode = "geo" /\ k = 3) => res
+InvM2 == (mode = "geo" /\ k = 4) => res
+InvM3 == (mode = "geo" /\ k = 5) => res
+InvM4 == (mode = "geo" /\ k = 6) => res
+InvM5 == (mode = "geo" /\ k = 7) => res
+InvF1 == (mode = "ml" /\ k = 2) => res
+InvF2 == (mode = "ml" /\ k = 3) => res
+InvF3 == (mode = "ml" /\ k = 4) => res
+InvF4 == (mode = "ml" /\ k = 5) => res
 =============================================================================
